@@ -74,6 +74,7 @@ func (s *segment) lastIndex() uint64 {
 }
 
 func (s *segment) get(i uint64, n uint64) []byte {
+	verifSegGet(s)
 	if i > s.prevIndex {
 		i := int(i - s.prevIndex)
 		from, to := s.offset(i), s.offset(i+int(n))
@@ -88,16 +89,21 @@ func (s *segment) available() int {
 
 func (s *segment) append(b []byte) {
 	copy(s.file.Data[s.size:], b)
+	verifPoint("append.copied", s)
 	size := s.size + len(b)
 	s.setOffset(size, s.n+2)
+	verifPoint("append.offset", s)
 	s.n, s.size = s.n+1, size
+	verifPoint("append.done", s)
 }
 
 func (s *segment) removeGTE(i uint64) error {
 	n := int(i - s.prevIndex - 1)
 	if n < s.n {
 		s.setOffset(n, 0)
+		verifPoint("removeGTE.header", s)
 		s.n, s.size, s.synced = n, s.offset(n+1), -1
+		verifPoint("removeGTE.fields", s)
 	}
 	return s.sync()
 }
@@ -108,13 +114,17 @@ func (s *segment) dirty() bool {
 
 func (s *segment) sync() error {
 	if s.dirty() {
+		verifPoint("sync.begin", s)
 		if err := s.file.Sync(); err != nil {
 			return err
 		}
+		verifPoint("sync.data", s)
 		s.setOffset(s.n, 0)
+		verifPoint("sync.headerwritten", s)
 		if err := s.file.Sync(); err != nil {
 			return err
 		}
+		verifPoint("sync.header", s)
 		s.synced = s.n
 	}
 	return nil
@@ -125,6 +135,7 @@ func (s *segment) close() error {
 	if e := s.file.Close(); err == nil {
 		err = e
 	}
+	verifSegClosed(s)
 	return err
 }
 
@@ -134,7 +145,9 @@ func (s *segment) remove() error {
 
 func (s *segment) closeAndRemove() error {
 	err1 := s.close()
+	verifPoint("remove.closed", s)
 	err2 := s.remove()
+	verifPoint("remove.removed", s)
 	if err1 != nil {
 		return err1
 	}
